@@ -62,6 +62,16 @@ def check(ctx):
     if nx == 0:
         for c in [c for c in cfgs if c['space'] == 'hyper' and c['kind'] in ('HS', 'SA', 'ABC', 'CS')][:2]:
             chosen.append(dict(c, adv=0.0, hook='observer', xproc=True))
+    # Levy-flight users after a task whose hyperparameters differ from theirs in the tenth digit only: always across
+    # processes (the run alone must not have filled any cache first)
+    nl = 0
+    for c in chosen:
+        if c['kind'] in ('CS', 'FPA') and nl < (2 if ctx['tier'] == 'quick' else 8):
+            c['xproc'] = True
+            nl += 1
+    if nl == 0:
+        for c in [c for c in cfgs if c['kind'] in ('CS', 'FPA')][:2]:
+            chosen.append(dict(c, adv=0.0, hook='observer', xproc=True))
     for n, c in enumerate(chosen):
         rp = dict(how='twice', cfg=c)
         # the preceding workload: the same kind of task (same shapes, so freed memory is re-used) with another
@@ -78,7 +88,12 @@ def check(ctx):
         other_space = dict(kind='HC', space='search', n_agents=3, n_vars=c['n_vars'], n_dims=1, n_iter=1, box='wide',
                            lb=[-7.25] * c['n_vars'], ub=[9.5] * c['n_vars'], objective='sphere', rettype='py', hyper={}, adv=0.0,
                            hook='observer', store_best_only=False, seed=13)
-        wl = [other_hp, same_shape, other_space] + workloads[:2]
+        near = []
+        if c['kind'] in ('CS', 'FPA'):
+            b0 = float((c.get('hyper') or {}).get('beta', 1.5))
+            for db in (3e-10, -4e-12):
+                near.append(dict(same_shape, seed=c['seed'] + 29, hyper=dict(c.get('hyper') or {}, beta=b0 + db)))
+        wl = near + [other_hp, same_shape, other_space] + workloads[:2]
         rp['workload'] = wl
         if n < n_cross or c['objective'] == 'barrier' or c.get('xproc'):
             a = child(c, [], 1)
